@@ -250,6 +250,10 @@ def server_prepare_headers(u: U):
     headers = CIMultiDict()
     if length is not None:
         headers["Content-Length"] = str(length)
+    # the application may have put a Transfer-Encoding header on the response itself (headers={...})
+    caller_te = u.choose(2, "caller_supplied_transfer_encoding") == 1
+    if caller_te:
+        headers["Transfer-Encoding"] = "chunked"
     r = u.obj("StreamResponse", {"_req": _Req(), "_payload_writer": w, "_keep_alive": ka0, "_headers": headers,
                                  "_cookies": None, "_compression": False, "_chunked": chunked, "_length_check": True,
                                  "_must_be_empty_body": empty, "status": 204 if empty else 200},
@@ -265,7 +269,16 @@ def server_prepare_headers(u: U):
     cl, te = "Content-Length" in h, has_chunked(h)
     ka = fields(r)["_keep_alive"]
     u.check("C02.frame.resp.writer_agrees_with_headers", w.chunking == te,
-            "the response body is chunk-framed exactly when the header says Transfer-Encoding: chunked")
+            "the response body is chunk-framed exactly when the header says Transfer-Encoding: chunked",
+            known=[("F2e", bool(caller_te and te and not w.chunking))],
+            witness={"caller_supplied_transfer_encoding": caller_te, "content_length": length, "chunked": chunked})
+    # (state invariant of StreamResponse assumed here: enable_chunked_encoding() refuses a response that has a
+    # Content-Length and the content_length setter refuses a chunked one - the pair _chunked + Content-Length arises only
+    # by writing to resp.headers behind their back)
+    u.check("C02.frame.resp.not_both", not (te and cl) or bool(chunked and length is not None),
+            "never Transfer-Encoding: chunked next to Content-Length (RFC 9112 6.2)",
+            known=[("F2e", bool(caller_te and te and cl))],
+            witness={"caller_supplied_transfer_encoding": caller_te, "content_length": length, "chunked": chunked})
     if empty:
         u.check("C02.frame.resp.bodiless_has_no_framing", not te and not cl and not w.chunking,
                 "1xx / 204 / 304 / HEAD responses carry neither Transfer-Encoding nor a body framing")
